@@ -20,6 +20,8 @@ def c_expr(s):
 class FnSpec:
     def __init__(self, name, **kw):
         self.name = name
+        self.fname = kw.pop("fname", name)     # extracted function this spec is about (variants share it)
+        self.primary = kw.pop("primary", True)  # the contract callers see when the function is replaced
         self.requires = list(kw.pop("requires", []))
         self.ensures = OrderedDict(kw.pop("ensures", {}))
         self.assigns = kw.pop("assigns", [])
@@ -91,9 +93,13 @@ class Unit:
         self.tr = None
         self.wrappers = {}
 
-    def fn(self, name, **kw):
-        s = FnSpec(name, **kw)
-        self.specs[name] = s
+    def fn(self, name, variant=None, **kw):
+        """variant: an additional contract (differently guarded) for the same function, enforced in its own run"""
+        if variant:
+            s = FnSpec(name + "#" + variant, fname=name, primary=False, **kw)
+        else:
+            s = FnSpec(name, **kw)
+        self.specs[s.name] = s
         return s
 
     def mfn(self, name, mode, ensures, **kw):
@@ -101,6 +107,13 @@ class Unit:
         import mathrun
         m = mathrun.MSpec(name, mode, ensures, **kw)
         self.mspecs[name + "@" + mode] = m
+        return m
+
+    def mlemma(self, name, mode, fn, **kw):
+        """math-back-end lemma: fn(ctx) -> (assumptions, {label: goal}) over calls into the extracted IR"""
+        import mathrun
+        m = mathrun.MLemma(name, mode, fn, **kw)
+        self.mspecs[name] = m
         return m
 
     def lemma(self, name, params, body, uses, **kw):
@@ -151,10 +164,10 @@ class Unit:
             tr.request(did)
         tr.run()
         for m in self.mspecs.values():
-            if m.name not in tr.funcs:
+            if not m.is_lemma and m.name not in tr.funcs:
                 raise ExtractionBreak("math spec for '%s' but no such extracted function" % m.name)
         for name in list(self.specs):
-            if name not in tr.funcs and not self.specs[name].assumed:
+            if self.specs[name].fname not in tr.funcs and not self.specs[name].assumed:
                 raise ExtractionBreak("spec for '%s' but no such extracted function (renamed or signature changed?)" % name)
         return tr
 
@@ -375,7 +388,10 @@ class Unit:
         tr = self.tr
         is_lemma = target in self.lemmas
         spec = self.lemmas[target] if is_lemma else self.specs[target]
-        contract_fns = set(n for n, s in self.specs.items())
+        contract_fns = set(s.fname for n, s in self.specs.items() if s.primary)
+        key = target
+        if not is_lemma:
+            target = spec.fname
         if is_lemma:
             roots = list(spec.uses)
             direct = set(spec.uses)
@@ -404,6 +420,8 @@ class Unit:
         for n in order:
             f = tr.funcs[n]
             s = self.specs.get(n)
+            if n == target and not is_lemma:
+                s = spec
             if n in replaced or (n == target and not is_lemma):
                 lines = []
                 ct = self.contract_text(s, f, lines)
@@ -441,7 +459,7 @@ class Unit:
             hname = "h_" + target
         hstart = text.count("\n") + 1
         text += htxt
-        cfile = os.path.join(workdir, "%s__%s.c" % (self.name, target))
+        cfile = os.path.join(workdir, "%s__%s.c" % (self.name, key.replace("#", "__")))
         with open(cfile, "w") as fh:
             fh.write(text)
         # must-fire rules
@@ -456,7 +474,7 @@ class Unit:
             if f.loops and not spec.loops and not spec.extra.get("unwind"):
                 raise ExtractionBreak("function %s has %d loop(s) but no loop contract" % (target, f.loops))
         has_loops = (not is_lemma) and bool(spec.loops)
-        return dict(unit=self.name, target=target, cfile=cfile, harness=hname, enforce=None if is_lemma else target,
+        return dict(unit=self.name, target=key, fname=target, cfile=cfile, harness=hname, enforce=None if is_lemma else target,
                     replaced=replaced, loops=has_loops, linemap=linemap, inputs=inputs, spec=spec, is_lemma=is_lemma,
                     hstart=hstart, functions=order, text=text, rec=(not is_lemma and spec.rec))
 
